@@ -1031,6 +1031,8 @@ class FnEffect:
                     k.arg == "inplace" and not (isinstance(k.value, ast.Constant) and k.value.value is False)
                     for k in e.keywords)):
                 self.mutate(recv.obj, e, f"in-place .{name}()")
+            if res == "fresh" and any(k.arg == "copy" and not (isinstance(k.value, ast.Constant) and k.value.value is True) for k in e.keywords):
+                res = "view"        # astype / rename / reindex / set_axis / infer_objects (.., copy=False): may hand back the receiver's own blocks
             return self.model_result(res, recv, allargs, e)
         if h == "pymeth":
             fam, name = fk[1], fk[2]
